@@ -576,6 +576,100 @@ Proof.
   rewrite mset_scalar_zero_nil; [exact IH|]. rewrite scalar_of_nil. apply is_zero_zero_of.
 Qed.
 
+(* ---- canonical message values ------------------------------------------------------------------------ *)
+(* A canonical value lists its populated fields in strictly increasing field-number order, every key is a
+   field of the message, and a singular URL-capable scalar (string, bool, integer kinds) is stored only
+   when it is not the zero value, as an [FS].  The harness's MsgCanon produces such values (implicit-
+   presence scalars are listed only when non-default); the one exception is a oneof member of such a kind
+   explicitly set to its zero value, for which [canonical] fails and the theorem below does not apply. *)
+Definition key_ok (fs : list field) (k : str) (v : fval) : bool :=
+  match find_field fs k with
+  | None => false
+  | Some g => if field_url_ok g then match v with FS x => negb (is_zero x) | _ => false end else true
+  end.
+
+Fixpoint canonicalb (fs : list field) (m : mval) : bool :=
+  match m with
+  | [] => true
+  | (k, v) :: r =>
+      key_ok fs k v && forallb (fun kv : str * fval => (field_num fs k <? field_num fs (fst kv))%Z) r &&
+      canonicalb fs r
+  end.
+
+Definition canonical (fs : list field) (m : mval) : Prop := canonicalb fs m = true.
+
+Lemma mget_In m k x : mget m k = Some x -> In (k, x) m.
+Proof.
+  induction m as [|[k' v] m IH]; cbn [mget]; [discriminate|].
+  destruct (str_eqb k k') eqn:E.
+  - intros H. inversion H. subst. apply str_eqb_eq in E. subst. now left.
+  - intros H. right. now apply IH.
+Qed.
+
+Lemma mremove_absent m k : mget m k = None -> mremove m k = m.
+Proof.
+  induction m as [|[k' v] m IH]; [reflexivity|]. cbn [mget mremove].
+  destruct (str_eqb k k'); [discriminate|]. intros H. now rewrite IH.
+Qed.
+
+Lemma mget_later fs k r :
+  forallb (fun kv : str * fval => (field_num fs k <? field_num fs (fst kv))%Z) r = true -> mget r k = None.
+Proof.
+  induction r as [|[k2 v2] r IH]; [reflexivity|]. cbn [forallb fst mget]. intros H.
+  apply andb_true_iff in H as [H1 H2]. destruct (str_eqb k k2) eqn:E; [|now apply IH].
+  apply str_eqb_eq in E. subst k2. apply Z.ltb_lt in H1. lia.
+Qed.
+
+Lemma canonical_key_ok fs : forall m k v, canonical fs m -> In (k, v) m -> key_ok fs k v = true.
+Proof.
+  unfold canonical. induction m as [|[k' v'] m IH]; intros k v H Hin; [contradiction|].
+  cbn [canonicalb] in H. apply andb_true_iff in H as [H H3]. apply andb_true_iff in H as [H1 H2].
+  destruct Hin as [E|Hin]; [inversion E; now subst|now apply IH].
+Qed.
+
+Lemma minsert_mremove_canonical fs k v : forall m, canonical fs m -> mget m k = Some v ->
+  minsert fs (mremove m k) k v = m.
+Proof.
+  unfold canonical. induction m as [|[k' v'] m IH]; intros H Hg; [discriminate|].
+  cbn [canonicalb] in H. apply andb_true_iff in H as [H H3]. apply andb_true_iff in H as [H1 H2].
+  cbn [mget] in Hg. cbn [mremove]. destruct (str_eqb k k') eqn:E.
+  - apply str_eqb_eq in E. subst k'. inversion Hg. subst v'.
+    rewrite (mremove_absent m k (mget_later fs k m H2)).
+    destruct m as [|[k2 v2] m]; [reflexivity|]. cbn [minsert].
+    cbn [forallb fst] in H2. apply andb_true_iff in H2 as [H2 _]. now rewrite H2.
+  - cbn [minsert].
+    assert (L : (field_num fs k <? field_num fs k')%Z = false).
+    { apply Z.ltb_ge. rewrite forallb_forall in H2. specialize (H2 (k, v) (mget_In _ _ _ Hg)).
+      cbn [fst] in H2. apply Z.ltb_lt in H2. lia. }
+    rewrite L. f_equal. now apply IH.
+Qed.
+
+(* re-binding a URL-capable singular field with the value the message already gives it changes nothing *)
+Lemma mset_scalar_same_canonical fs m f : canonical fs m ->
+  find_field fs (f_name f) = Some f -> field_url_ok f = true ->
+  mset_scalar fs m f (scalar_of m f) = m.
+Proof.
+  intros Hc Hf Hok. unfold mset_scalar, scalar_of.
+  destruct (mget m (f_name f)) as [v|] eqn:Eg.
+  - pose proof (canonical_key_ok fs m _ _ Hc (mget_In _ _ _ Eg)) as K. unfold key_ok in K.
+    rewrite Hf, Hok in K. destruct v as [x| | |]; try discriminate K.
+    apply negb_true_iff in K. rewrite K. now apply minsert_mremove_canonical.
+  - rewrite is_zero_zero_of. now apply mremove_absent.
+Qed.
+
+Lemma set_vars_canonical fs m : canonical fs m -> forall vars,
+  (forall v f, In v vars -> find_field fs v = Some f -> field_url_ok f = true) ->
+  set_vars fs m vars m = m.
+Proof.
+  intros Hc. induction vars as [|v vars IH]; intros H; [reflexivity|]. cbn [set_vars].
+  assert (H' : forall v0 f, In v0 vars -> find_field fs v0 = Some f -> field_url_ok f = true).
+  { intros v0 f Hin. apply H. now right. }
+  destruct (find_field fs v) as [f|] eqn:Ef; [|now apply IH].
+  destruct (find_field_some fs v f Ef) as [_ Hname].
+  rewrite mset_scalar_same_canonical; [now apply IH|exact Hc|now rewrite Hname|].
+  now apply (H v f (or_introl eq_refl)).
+Qed.
+
 (* ---- well-formedness predicates used by the main theorems ---------------------------------------- *)
 
 Fixpoint strs_eqb (a b : list str) : bool :=
@@ -654,7 +748,7 @@ Notation fs := (in_fields sc md).
 Notation r := (info_of fl sv md (in_fields sc md)).
 
 Lemma defects_nil_inv : defects_C01 sc fl sv md ct req = [] ->
-  filter route_defect (defects_C03 r) = [] /\ ct <> CtOctet /\
+  filter route_defect (defects_C03 r) = [] /\
   (forall v f, In v (path_vars r) -> find_field fs v = Some f -> dirty_seg (sprint (scalar_of req f)) = false) /\
   (forall v f, In v (path_vars r) -> find_field fs v = Some f ->
                str_eqb (sprint (scalar_of req f)) [slash] = false) /\
@@ -664,13 +758,12 @@ Lemma defects_nil_inv : defects_C01 sc fl sv md ct req = [] ->
      forall n, dispatched_to rs w = Some n -> n = md_name md).
 Proof.
   unfold defects_C01. cbv zeta. intros H.
-  apply app_nil_split in H as [H1 H]. apply app_nil_split in H as [H2 H].
+  apply app_nil_split in H as [H1 H].
   apply app_nil_split in H as [H3 H]. apply app_nil_split in H as [H4 H].
   apply app_nil_split in H as [H5 H]. apply app_nil_split in H as [H6 H].
   apply app_nil_split in H as [H7 _].
   repeat split.
   - now apply map_eq_nil in H1.
-  - intros ->. discriminate.
   - intros v f Hv Hf. apply if_nil in H3.
     pose proof (existsb_false_forall _ _ H3 v Hv) as F. cbv beta in F. now rewrite Hf in F.
   - intros v f Hv Hf. apply if_nil in H4.
@@ -689,7 +782,7 @@ Lemma defects_nil_inv2 : defects_C01 sc fl sv md ct req = [] ->
   (verb_has_body (eff_verb r) = false -> NoDup (map qname (query_fields fs))).
 Proof.
   unfold defects_C01. cbv zeta. intros H.
-  do 7 (apply app_nil_split in H as [_ H]).
+  do 6 (apply app_nil_split in H as [_ H]).
   apply app_nil_split in H as [H1 H]. apply app_nil_split in H as [H2 H4].
   repeat split.
   - intros Hb f Hf Hr. apply if_nil in H1. rewrite Hb in H1. cbn [negb andb] in H1.
@@ -734,7 +827,7 @@ Proof.
   destruct (client_build_inv w Hcb) as [segs [filled [q [Hts [_ [Hfill [_ [Hverb [Hpath _]]]]]]]]].
   unfold template_ok in Htpl. rewrite Hts in Htpl. pose proof (strs_eqb_eq _ _ Htpl) as Hvars.
   apply fill_all in Hfill as [-> Hfields]. rewrite Hvars in Hfields.
-  destruct (defects_nil_inv Hdef) as [Hroute [_ [Hdirty [Hslash [_ [_ Hdisp]]]]]].
+  destruct (defects_nil_inv Hdef) as [Hroute [Hdirty [Hslash [_ [_ Hdisp]]]]].
   apply route_agree in Hroute.
   destruct (server_routes_inv sc fl sv rs Hsr) as [Hnopanic Hin_rs].
   assert (Hpat : md_pattern sc fl sv md = PatOk segs /\ clean_segs (map pat_seg_str segs) = true).
@@ -789,25 +882,19 @@ Lemma server_handle_routed rs w ct resp p r0 b :
   w_path w = slash :: p -> clean_segs (split_on slash p) = true ->
   find_route rs (w_verb w) (split_on slash p) = Some (r0, b) ->
   server_handle rs w ct resp =
+  if is_subtree (sr_pat r0) && slash_redirect rs (w_verb w) (split_on slash p)
+  then Unmodelled (s "redirect into a subtree route") else
   if negb (all_singular_url (sr_fields r0) (rt_pathvars (sr_route r0)))
   then Unmodelled (s "URL-bound field of unmodelled kind/cardinality") else
-  match bind_path (sr_fields r0) (rt_pathvars (sr_route r0)) b [] with
+  match body_start (rt_body (sr_route r0)) ct (w_body w) with
   | inr f => Ok (inr (inl f))
-  | inl m1 =>
-      match bind_query (sr_fields r0) (query_fields (sr_fields r0)) (w_query w) m1 with
+  | inl m0 =>
+      match bind_path (sr_fields r0) (rt_pathvars (sr_route r0)) b m0 with
       | inr f => Ok (inr (inl f))
-      | inl m2 =>
-          match (if rt_body (sr_route r0) then
-                   match w_body w with
-                   | Some (f, v) =>
-                       if bfmt_eqb f (server_fmt ct)
-                       then (match f, v with BBin, [] => inl m2 | _, _ => inl v end)
-                       else inr (s "body")
-                   | None => inl m2
-                   end
-                 else inl m2) with
+      | inl m1 =>
+          match bind_query (sr_fields r0) (query_fields (sr_fields r0)) (w_query w) m1 with
           | inr f => Ok (inr (inl f))
-          | inl saw => Ok (inl (Some (saw, (server_fmt ct, resp))))
+          | inl m2 => Ok (inl (Some (m2, (server_fmt ct, resp))))
           end
       end
   end.
@@ -815,9 +902,10 @@ Proof.
   intros Hp Hc Hf. unfold server_handle. rewrite Hp, Hc. cbn [negb]. rewrite Hf. reflexivity.
 Qed.
 
-Lemma fmt_agree ct : ct <> CtOctet ->
+(* since the octet-stream repair both sides use the same codec for every content type *)
+Lemma fmt_agree ct :
   bfmt_eqb (client_fmt ct) (server_fmt ct) = true /\ bfmt_eqb (server_fmt ct) (client_fmt ct) = true.
-Proof. destruct ct; intros H; try (split; reflexivity). congruence. Qed.
+Proof. destruct ct; split; reflexivity. Qed.
 
 (* ---- C4: verbs that carry a body ------------------------------------------------------------------- *)
 
@@ -834,12 +922,13 @@ Theorem go_call_body_tpl : forall resp w o,
   template_ok r = true ->
   path_vals_nonempty fs req (path_vars r) = true ->
   req_typed fs req ->
+  canonical fs req ->
   o = Delivered req resp.
 Proof.
-  intros resp w o Hcall Hdef Hbody Hmd Hnd Htpl Hne Hty.
+  intros resp w o Hcall Hdef Hbody Hmd Hnd Htpl Hne Hty Hcan.
   unfold go_call in Hcall. cbv zeta in Hcall.
   destruct (client_build fl sv md fs ct req) as [w0|] eqn:Hcb; [|discriminate].
-  destruct (defects_nil_inv sc fl sv md ct req Hdef) as [_ [Hct [_ [_ [Hreq [Hnopanic _]]]]]].
+  destruct (defects_nil_inv sc fl sv md ct req Hdef) as [_ [_ [_ [Hreq [Hnopanic _]]]]].
   specialize (Hreq Hbody).
   destruct (server_routes sc fl sv) as [[rs|]|] eqn:Hsr; [|congruence|discriminate].
   destruct (call_core sc fl sv md ct req w0 rs Hcb Hsr Hdef Hmd Hnd Htpl Hne)
@@ -848,9 +937,12 @@ Proof.
   rewrite Hbody in Hq, Hwb. inversion Hq; subst q.
   change (sort_kv []) with (@nil (str * str)) in Hwq.
   rewrite (server_handle_routed rs w0 ct resp p r0 _ Hpath Hclean Hfr) in Hcall.
+  destruct (is_subtree (sr_pat r0) && slash_redirect rs (w_verb w0) (split_on slash p)); [discriminate|].
   rewrite Hfs, Hrt in Hcall. cbn [rt_pathvars rt_body go_server] in Hcall.
   destruct (all_singular_url fs (path_vars r)); cbn [negb] in Hcall; [|discriminate].
-  rewrite (bind_path_ok fs req (path_vars r) (path_vars r) []) in Hcall.
+  destruct (fmt_agree ct) as [Hf1 Hf2].
+  unfold body_start in Hcall. rewrite Hbody, Hwb, Hf1 in Hcall.
+  rewrite (bind_path_ok fs req (path_vars r) (path_vars r) req) in Hcall.
   2: { apply incl_refl. }
   2: { intros v f Hv Hf. destruct (Hfields v Hv) as [f' [Hf' Hok]]. rewrite Hf in Hf'. inversion Hf'; subst f'.
        apply field_url_ok_kind in Hok. repeat split.
@@ -858,13 +950,11 @@ Proof.
          apply negb_true_iff in Hne. now apply str_eqb_neq in Hne.
        - exact Hok.
        - apply Hty; [|exact Hok]. now apply (find_field_some fs v f). }
+  (* re-binding the request's own path values on top of the request changes nothing *)
+  rewrite (set_vars_canonical fs req Hcan) in Hcall.
+  2: { intros v f Hv Hf. destruct (Hfields v Hv) as [f' [Hf' Hok]]. rewrite Hf in Hf'. now inversion Hf'; subst f'. }
   rewrite Hwq, (bind_query_nil fs _ _ Hreq) in Hcall.
-  rewrite Hbody, Hwb in Hcall. destruct (fmt_agree ct Hct) as [Hf1 Hf2]. rewrite Hf1 in Hcall.
-  assert (Hsaw : (match client_fmt ct, req with
-                  | BBin, [] => @inl mval str (set_vars fs req (path_vars r) [])
-                  | _, _ => inl req end) = inl req).
-  { destruct (client_fmt ct); [reflexivity|]. destruct req; [|reflexivity]. now rewrite set_vars_nil. }
-  rewrite Hsaw in Hcall. rewrite Hf2 in Hcall. cbn [orb] in Hcall. now inversion Hcall.
+  rewrite Hf2 in Hcall. cbn [orb] in Hcall. now inversion Hcall.
 Qed.
 
 End Body.
@@ -1058,7 +1148,7 @@ Proof.
   intros resp w o Hcall Hdef Hbody Hmd Hnd Htpl Hne Hty Hfnd Hqnd Hcover Hreqd.
   unfold go_call in Hcall. cbv zeta in Hcall.
   destruct (client_build fl sv md fs ct req) as [w0|] eqn:Hcb; [|discriminate].
-  destruct (defects_nil_inv sc fl sv md ct req Hdef) as [_ [Hct [_ [_ [_ [Hnopanic _]]]]]].
+  destruct (defects_nil_inv sc fl sv md ct req Hdef) as [_ [_ [_ [_ [Hnopanic _]]]]].
   destruct (server_routes sc fl sv) as [[rs|]|] eqn:Hsr; [|congruence|discriminate].
   destruct (call_core sc fl sv md ct req w0 rs Hcb Hsr Hdef Hmd Hnd Htpl Hne)
     as [p [r0 [Hpath [Hclean [Hfr [Hfs [Hrt Hfields]]]]]]].
@@ -1076,8 +1166,10 @@ Proof.
   { intros f Hf. pose proof (field_url_ok_kind f (Hqok f Hf)) as Hk. split; [exact Hk|].
     apply Hty; [|exact Hk]. now apply query_fields_In in Hf as [Hf _]. }
   rewrite (server_handle_routed rs w0 ct resp p r0 _ Hpath Hclean Hfr) in Hcall.
+  destruct (is_subtree (sr_pat r0) && slash_redirect rs (w_verb w0) (split_on slash p)); [discriminate|].
   rewrite Hfs, Hrt in Hcall. cbn [rt_pathvars rt_body go_server] in Hcall.
   destruct (all_singular_url fs (path_vars r)); cbn [negb] in Hcall; [|discriminate].
+  unfold body_start in Hcall. rewrite Hbody in Hcall.
   rewrite (bind_path_ok fs req (path_vars r) (path_vars r) []) in Hcall.
   2: { apply incl_refl. }
   2: { intros v f Hv Hf. destruct (Hpv v f Hv Hf) as [Hk Ht]. repeat split; [|exact Hk|exact Ht].
@@ -1089,8 +1181,7 @@ Proof.
          now apply qgen_values.
        - intros Hz. destruct (qrequired f) eqn:Er; [|reflexivity].
          rewrite (Hreqd f Hf Er) in Hz. discriminate. }
-  rewrite Hbody in Hcall.
-  destruct (fmt_agree ct Hct) as [_ Hf2]. rewrite Hf2 in Hcall. cbn [orb] in Hcall.
+  destruct (fmt_agree ct) as [_ Hf2]. rewrite Hf2 in Hcall. cbn [orb] in Hcall.
   inversion Hcall; subst. eexists. split; [reflexivity|].
   destruct (set_vars_inv fs req Hfnd (path_vars r) [] (vals_good_nil fs req) Hpv) as [G1 [_ D1]].
   destruct (set_query_inv fs req Hfnd (query_fields fs) _ G1) as [_ [K2 D2]].
@@ -1300,9 +1391,10 @@ Theorem go_call_body : forall sc fl sv md ct req resp w o,
   In md (sv_methods sv) -> NoDup (map md_name (sv_methods sv)) ->
   path_vals_nonempty (in_fields sc md) req (path_vars (info_of fl sv md (in_fields sc md))) = true ->
   req_typed (in_fields sc md) req ->
+  canonical (in_fields sc md) req ->
   o = Delivered req resp.
 Proof.
-  intros sc fl sv md ct req resp w o Hcall Hdef Hb Hmd Hnd Hne Hty.
+  intros sc fl sv md ct req resp w o Hcall Hdef Hb Hmd Hnd Hne Hty Hcan.
   apply (go_call_body_tpl sc fl sv md ct req resp w o); try assumption.
   now apply (template_ok_of_defects sc fl sv md ct req resp w o).
 Qed.
@@ -1372,7 +1464,7 @@ Definition wf_body (sc : schema) (fl : file) (sv : service) (md : method) (req :
   let fs := in_fields sc md in
   let r := info_of fl sv md fs in
   verb_has_body (eff_verb r) && nodupb (map md_name (sv_methods sv)) &&
-  path_vals_nonempty fs req (path_vars r) && req_typedb fs req.
+  path_vals_nonempty fs req (path_vars r) && req_typedb fs req && canonicalb fs req.
 
 Definition wf_nobody (sc : schema) (fl : file) (sv : service) (md : method) (req : mval) : bool :=
   let fs := in_fields sc md in
